@@ -858,7 +858,13 @@ func checkC24(r *mon.Run) {
 		"trust.Verifier (uncached, cold cache) / compat.Verifier / VerifySegment: segments of 1-3 entries parsed from the wire whose " +
 		"probe entry is signed with a fresh key whose certificate(s) start d after / d before the timestamp or end d before / d after " +
 		"the hop expiry, d in {0, 0.5 s, seconds, minutes, every hour 1..14, +-1 s around every zone offset}, plus two certificates of " +
-		"which neither / one covers; class = localdb / zone / scenario / by=exact|seconds|minutes|hours / verifier / outcome"
+		"which neither / one covers; class = localdb / zone / scenario / by=exact|seconds|minutes|hours / verifier / outcome. " +
+		"Verifier state x engine faults (same phase, per zone 16 histories): ONE trust.Verifier (go-cache chain cache on / off) over a " +
+		"switchable engine (FetchingProvider wrapper: GetChains error; trust DB Chains / SignedTRC read error; remote fetch error; " +
+		"cancelled / expired context) first verifies a covered segment (warm-up), then segments signed by the same key (one certificate) " +
+		"whose hop lifetime ends after NotAfter or starts before NotBefore by seconds/minutes/hours, and covered ones, under the " +
+		"history's fault or a healthy engine (single-fault plans: fixed multiset in PRNG order; mixed plans: PRNG-drawn fault x segment); " +
+		"class = cache-fault / cache=on|off / engine state / covered|uncovered / outcome [/ engine=not-asked|answered|failed]"
 	r.Assumptions = []string{
 		"oracle: verifies <=> untouched or truncated tail (or a re-signed positive control); everything else must be rejected by parser or VerifySegment",
 		"all certificates and TRCs are valid at the wall-clock time of the run with margins of >= 2 h (run time is capped below that by the watchdog), so no verdict depends on time.Now()",
@@ -872,6 +878,9 @@ func checkC24(r *mon.Run) {
 		"local-trust-DB phase: oracle = verifies <=> some certificate of the signing key has NotBefore <= timestamp and NotAfter >= timestamp + (1+ExpTime)*337.5 s " +
 			"(instants compared, computed from the issued certificate fields; the same inclusive lifetime as the validity cases of the main phase); the zone never enters the oracle; " +
 			"late-starting certificates started >= 5 min before setup, early-ending ones end >= 2 h 10 min after it; whether the remote was asked is recorded, not judged",
+		"cache-fault histories: an uncovered segment must never verify whatever the engine does and whatever the verifier has cached; a covered one must " +
+			"verify when the engine is healthy for that call (also after earlier faults); a covered one under a fault is recorded, not judged; " +
+			"faults are switches / already-done contexts, never timing",
 		"time.Local is written only by the check's main goroutine between phases, after every worker goroutine has been joined, and restored at the end",
 	}
 	if err := beaconref.SelfTest(); err != nil {
